@@ -19,6 +19,7 @@ import Pandora.Proofs.C18Ext
 import Pandora.Proofs.C18Eng
 import Pandora.Proofs.C18Hist
 import Pandora.Bridge.Plugin
+import Pandora.Proofs.C18Sess
 
 namespace Pandora.Props.C18
 open Pandora.Model.C18 Pandora.Spec.C18 Pandora.Proofs.C18
@@ -420,6 +421,102 @@ theorem C18_spec (inp : Input) (fields : List Nat) : judge inp (run inp) fields 
       · simp [hf, ho, C18_once inp obs hrun ho]
       · simp [hf, ho]
 
+/-! ### sessions: several registrations in ONE registry, any interleaving of operations
+
+`Model.C18Sess`: a registry holds any number of registrations (plugin type × name × constructor shape, each with its own
+user code and fault plan); a session is ANY list of `Register` / `New` / `NewFactory` / call of ANY factory handed out so
+far / `Lookup`.  The Spec (`Spec.C18Sess.judgeSess`) keeps its own book, resolves every creation "by name" itself and
+judges every single step by the clauses of the single-creation Spec w.r.t. the registration that was meant and the user
+settings of the creation the called factory came from. -/
+section
+open Pandora.Model.C18Sess Pandora.Spec.C18Sess Pandora.Proofs.C18Sess
+
+/-- **every session satisfies the whole session Spec**: for every list of operations (no bound on the number of
+registrations, creations, calls, on their order) and every list of fields:
+(1) a registration is accepted iff its name is not empty, nothing is registered under this (plugin type, name) yet and the
+default-config function fits the constructor; a creation for a (type, name) nobody registered ends with the error result
+of the lookup; a creation for a registered one runs on exactly that registration; `Lookup` never denies a registered
+type;
+(2) every step — the creation of a factory, every call of every factory at whatever later moment, every `New` — satisfies
+the error, configuration (defaults of ITS registration overlaid by the user settings of ITS creation, every listed field),
+per-call, once and invocation-structure clauses of the single-creation Spec;
+(3) at the very end every product that must own its configuration reads its own serial number through its configuration
+pointer, whatever was created or called after it;
+(4) the configurations obtained by different `Get`s of one registration are pairwise distinct: no two per-product
+configurations, and no configuration captured by a factory constructor and any other, coincide. -/
+theorem C18_session (ops : List Op) (fields : List Nat) : judgeSess ops (Pandora.Model.C18Sess.run ops) fields = "ok" := by
+  have h1 := opsOk_run fields ops SSt.empty Track.empty rel_empty inv_empty
+  have h2 := viewsOk_run fields ops SSt.empty Track.empty (runFrom SSt.empty ops).1 rel_empty inv_empty (frame_refl _)
+  have c1 := (cells_run fields projFills (fun sst tr op hR hI => (cells_exec fields hR hI op).1) ops _ _ rel_empty inv_empty).2
+  have c2 := (cells_run fields projConfs (fun sst tr op hR hI => (cells_exec fields hR hI op).2.1) ops _ _ rel_empty inv_empty).2
+  have c3 := (cells_run fields projProds (fun sst tr op hR hI => (cells_exec fields hR hI op).2.2) ops _ _ rel_empty inv_empty).2
+  simp only [projFills, projConfs, projProds] at c1 c2 c3
+  simp [judgeSess, Pandora.Model.C18Sess.run, h1, h2, nodupP, c1, c2, c3]
+
+/-- the operations of a session, one by one (clauses (1) and (2) of `C18_session`) -/
+theorem C18_session_steps (ops : List Op) (fields : List Nat) :
+    opsOk fields Track.empty ops (Pandora.Model.C18Sess.run ops).outs = "" :=
+  opsOk_run fields ops SSt.empty Track.empty rel_empty inv_empty
+
+/-- **creation by name**: after ANY session `pre`, with `book` the Spec's own record of the accepted registrations:
+* nothing registered for (t, n): `New` and `NewFactory` end with the lookup error, NO user code runs and nothing in the
+  registry changes;
+* otherwise there is exactly ONE accepted registration for (t, n) and `New` is the single-registration `regNew` of
+  Model/C18 on the current state of that registration — with that registration's constructor shape, defaults and fault
+  plan, and this creation's user settings. -/
+theorem C18_lookup (pre : List Op) (t : Nat) (n : String) (user : Cfg) (hasFill : Bool) :
+    (resolve (trackRun Track.empty pre (runFrom SSt.empty pre).2).regs t n = none →
+      exec (runFrom SSt.empty pre).1 (.new t n user hasFill) =
+        ((runFrom SSt.empty pre).1, .noEntry ((runFrom SSt.empty pre).1.types.contains t)) ∧
+      ∀ e, exec (runFrom SSt.empty pre).1 (.newFactory t n e user hasFill) =
+        ((runFrom SSt.empty pre).1, .noEntry ((runFrom SSt.empty pre).1.types.contains t))) ∧
+    (∀ i, resolve (trackRun Track.empty pre (runFrom SSt.empty pre).2).regs t n = some i →
+      ∃ sl, (runFrom SSt.empty pre).1.slots[i]? = some sl ∧ sl.reg.ptype = t ∧ sl.reg.name = n ∧
+        (∀ (j : Nat) (sl' : Slot), (runFrom SSt.empty pre).1.slots[j]? = some sl' → sl'.reg.ptype = t → sl'.reg.name = n → j = i) ∧
+        exec (runFrom SSt.empty pre).1 (.new t n user hasFill) =
+          (setSt (runFrom SSt.empty pre).1 i sl (step (regNew sl.reg.sh (sl.reg.world user hasFill)) sl.st).1,
+           .step i (step (regNew sl.reg.sh (sl.reg.world user hasFill)) sl.st).2)) := by
+  obtain ⟨hR, hI⟩ := rel_run [] pre SSt.empty Track.empty rel_empty inv_empty
+  have hU := uniq_run [] pre SSt.empty Track.empty rel_empty inv_empty uniq_empty
+  generalize (runFrom SSt.empty pre).1 = sst at hR hI ⊢
+  generalize trackRun Track.empty pre (runFrom SSt.empty pre).2 = book at hR hU ⊢
+  refine ⟨fun hres => ?_, fun i hres => ?_⟩
+  · have hfind : findSlot sst.slots t n = none := by rw [findSlot_eq, ← hR.regs]; exact hres
+    exact ⟨by simp [exec, hfind], fun e => by simp [exec, hfind]⟩
+  · obtain ⟨r, hr, h1, h2⟩ := resolve_some hres
+    obtain ⟨sl, hsl, hreg⟩ := slot_of_rel hR hr
+    have hfind : findSlot sst.slots t n = some i := by rw [findSlot_eq, ← hR.regs]; exact hres
+    subst hreg
+    refine ⟨sl, hsl, h1, h2, fun j sl' hj g1 g2 => ?_, by simp [exec, hfind, hsl]⟩
+    have hj' : book.regs[j]? = some sl'.reg := by rw [hR.regs, List.getElem?_map, hj]; rfl
+    exact hU j i sl'.reg sl.reg hj' hr (by rw [g1, h1]) (by rw [g2, h2])
+
+/-- **registrations do not interfere**: an operation that the Spec attributes to registration `i` changes the state of
+no other registration; an operation that reaches no registration (failed lookup, call of a factory that was never
+handed out, `Lookup`) changes nothing at all, and `Register` changes no existing registration and no factory -/
+theorem C18_isolation (pre : List Op) (op : Op) :
+    (∀ i inp creation, target (trackRun Track.empty pre (runFrom SSt.empty pre).2) op = some (i, inp, creation) →
+      ∀ j : Nat, j ≠ i → (exec (runFrom SSt.empty pre).1 op).1.slots[j]? = (runFrom SSt.empty pre).1.slots[j]?) ∧
+    (target (trackRun Track.empty pre (runFrom SSt.empty pre).2) op = none →
+      (exec (runFrom SSt.empty pre).1 op).1.handles = (runFrom SSt.empty pre).1.handles ∧
+      ∀ (j : Nat) (sl : Slot), (runFrom SSt.empty pre).1.slots[j]? = some sl → (exec (runFrom SSt.empty pre).1 op).1.slots[j]? = some sl) := by
+  obtain ⟨hR, hI⟩ := rel_run [] pre SSt.empty Track.empty rel_empty inv_empty
+  generalize (runFrom SSt.empty pre).1 = sst at hR hI ⊢
+  generalize trackRun Track.empty pre (runFrom SSt.empty pre).2 = book at hR ⊢
+  refine ⟨fun i inp creation ht j hj => ?_, fun ht => ?_⟩
+  · obtain ⟨sl, st', s, newH, touched, hsl, hsh, hex, _⟩ := exec_slot [] hR hI op i inp creation ht
+    rw [hex]
+    simp only [slotExec]
+    exact List.getElem?_set_ne (fun hh => hj hh.symm)
+  · obtain ⟨types', extra, hex, _⟩ := exec_other [] hR hI op ht
+    rw [hex]
+    refine ⟨rfl, fun j sl hj => ?_⟩
+    simp only
+    rw [List.getElem?_append_left (lt_of_getElem? hj)]
+    exact hj
+
+end
+
 /-! ### non-vacuity: concrete inputs that meet the hypotheses and exercise every branch of the statements -/
 
 /-- defaults 5/6/7 on fields 1..3, the user sets field 2 to 9 -/
@@ -506,6 +603,52 @@ example : (runHist exHist).map (fun o => o.phases.map fun ob => (products ob.ste
     some [[(some 0, 5, 9, 7), (some 1, 5, 9, 7)], [(some 2, 4, 6, 7), (some 3, 4, 6, 7)], [(some 4, 5, 6, 7)]] := by decide
 example : (runHist exHist).map (·.views) = some [(0, 0), (1, 1), (2, 2), (3, 3), (4, 4)] := by decide
 example : (runHist exHist).map (fun o => freshCellsH exHist exHist.phases o.phases) = some [0, 1, 2, 3, 4] := by decide
+
+/-! sessions: two registrations with the SAME name under different plugin types, a refused duplicate, interleaved calls
+of three factories, creations for a name / a type nobody registered -/
+section
+open Pandora.Model.C18Sess Pandora.Spec.C18Sess
+
+def exSess : List Op :=
+  [ .register ⟨0, "x", exFresh.sh, [(1, 5), (2, 6), (3, 7)], noFault, noFault, noFault⟩,
+    .register ⟨1, "x", exOnce.sh, [(1, 1)], noFault, noFault, noFault⟩,
+    .register ⟨0, "x", exOnce.sh, [], noFault, noFault, noFault⟩,            -- duplicate (type 0, "x"): refused
+    .newFactory 0 "x" true [(2, 9)] true,                                      -- factory 0: component constructor
+    .newFactory 1 "x" false [(3, 8)] true,                                     -- factory 1: factory constructor
+    .call 0, .call 1,
+    .newFactory 0 "x" false [] false,                                          -- factory 2, other settings
+    .call 0, .call 2, .call 1,                                                 -- factory 0 again AFTER the later creation
+    .new 0 "y" [] true, .new 2 "x" [] false,                                   -- unknown name / unknown type
+    .lookup 2, .lookup 1 ]
+
+/-- which registration served which operation, and what every product saw: the products of factory 0 see 5/9/7 before
+and after factory 2 (5/6/7) was created and used; factory 1 belongs to the other plugin type (defaults 1/0/0, user 8) -/
+example : (Pandora.Model.C18Sess.run exSess).outs.map (fun o => match o with
+      | .accepted => (0, 0, none, 0, 0, 0) | .refused => (1, 0, none, 0, 0, 0) | .noEntry _ => (2, 0, none, 0, 0, 0)
+      | .noHandle => (3, 0, none, 0, 0, 0) | .found b => (if b then 4 else 5, 0, none, 0, 0, 0)
+      | .step i s => match s.res with
+        | .ok p => (7, i, p.cell, p.seen.get 1, p.seen.get 2, p.seen.get 3)
+        | .made => (6, i, none, 0, 0, 0) | _ => (8, i, none, 0, 0, 0)) =
+    ([(0, 0, none, 0, 0, 0), (0, 0, none, 0, 0, 0), (1, 0, none, 0, 0, 0), (6, 0, none, 0, 0, 0), (6, 1, none, 0, 0, 0),
+      (7, 0, some 0, 5, 9, 7), (7, 1, some 0, 1, 0, 8), (6, 0, none, 0, 0, 0), (7, 0, some 1, 5, 9, 7),
+      (7, 0, some 2, 5, 6, 7), (7, 1, some 0, 1, 0, 8), (2, 0, none, 0, 0, 0), (2, 0, none, 0, 0, 0),
+      (5, 0, none, 0, 0, 0), (4, 0, none, 0, 0, 0)] : List (Nat × Nat × Option Nat × Int × Int × Int)) := by decide
+/-- at the very end the three per-product configurations of registration 0 still hold their own serial numbers (the two
+products of the factory constructor of registration 1 share its one configuration: both read the last serial, 1) -/
+example : (Pandora.Model.C18Sess.run exSess).views =
+    [none, none, none, none, none, some 0, some 1, none, some 1, some 2, some 1, none, none, none, none] := by decide
+example : (collect Track.empty exSess (Pandora.Model.C18Sess.run exSess).outs).prods = [(0, 0), (0, 1), (0, 2)] ∧
+    (collect Track.empty exSess (Pandora.Model.C18Sess.run exSess).outs).confs = [(1, 0), (0, 0), (0, 1), (0, 2)] := by decide
+/-- the lookup clause is not vacuous: after the three registrations (type 0, "y") resolves to nothing, (type 1, "x") to
+registration 1 -/
+example : resolve (trackRun Track.empty (exSess.take 3) (runFrom SSt.empty (exSess.take 3)).2).regs 0 "y" = none ∧
+    resolve (trackRun Track.empty (exSess.take 3) (runFrom SSt.empty (exSess.take 3)).2).regs 1 "x" = some 1 := by decide
+/-- a refused registration leaves its (empty) name table behind: `Lookup` answers true for that plugin type although
+nothing can be created for it (the quirk the model keeps) -/
+example : (Pandora.Model.C18Sess.run
+      [.register ⟨2, "x", { exFresh.sh with cfg := .none }, [], noFault, noFault, noFault⟩, .lookup 2, .new 2 "x" [] false]).outs =
+    [.refused, .found true, .noEntry true] := by decide
+end
 
 /-! registration types: a supported and three unsupported constructor types -/
 section
